@@ -135,6 +135,10 @@ def valid(case):
             if full:
                 return False
             b.connect()
+        elif c[0] == "F":
+            if full or b.revoked:
+                return False
+            b.revoke()
         elif c[0] == "e":
             k = int(c[1:].split(":")[0]); kind = (c.split(":") + ["close"])[1]
             if full:
@@ -208,6 +212,8 @@ def classify(case, model):
         feats.append("revoke@%d" % t[2:].index("r"))
     if any(c[0] == "f" for c in t[2:]):
         feats.append("accept-error")
+    if any(c[0] == "F" for c in t[2:]):
+        feats.append("revoke-during-accept-errors")
     if any(c[0] in "pu" for c in t[2:]):
         feats.append("partial")
     if any(c[0] == "b" for c in t[2:]):
